@@ -126,7 +126,21 @@ class Tree:
         if self.parse_errors:
             raise Undecided("syntax errors: " + "; ".join(self.parse_errors))
         self.renamed: List[str] = []
+        self.inlined: List[str] = []
         self._canonical_params()
+        self._inline_new_helpers()
+
+    def _inline_new_helpers(self):
+        import json
+
+        spec = Path(__file__).resolve().parent.parent / "spec" / "param_names.json"
+        if not spec.exists() or os.environ.get("VERIF_NO_CANON"):
+            return
+        from .inline import Inliner
+
+        inl = Inliner(self, set(json.loads(spec.read_text())))
+        inl.run()
+        self.inlined = inl.log
 
     # --- parameter names are not semantics: rename them back to the names the rules were written with
     def _canonical_params(self):
